@@ -584,7 +584,8 @@ where
         let ggsw_base2k: usize = s.base2k().into();
 
         self.glwe_sub(res, t, &f);
-        let (res_dft, scratch_1) = scratch.take_vec_znx_dft(self, (res.rank() + 1).into(), s.size()); // Todo optimise
+        let (mut res_dft, scratch_1) = scratch.take_vec_znx_dft(self, (res.rank() + 1).into(), s.size()); // Todo optimise
+        res_dft.zero(); // for dsize > 2 the product accumulates onto limbs its first digit does not write
         let mut res_big: VecZnxBig<&mut [u8], BE> = self.glwe_external_product_internal(res_dft, res, s, scratch_1);
         for j in 0..(res.rank() + 1).into() {
             self.vec_znx_big_add_small_assign(&mut res_big, j, f.data(), j);
@@ -615,7 +616,8 @@ where
             rank: res.rank(),
         });
         self.glwe_sub(&mut tmp, a, res);
-        let (res_dft, scratch_2) = scratch_1.take_vec_znx_dft(self, (res.rank() + 1).into(), s.size()); // Todo optimise
+        let (mut res_dft, scratch_2) = scratch_1.take_vec_znx_dft(self, (res.rank() + 1).into(), s.size()); // Todo optimise
+        res_dft.zero(); // for dsize > 2 the product accumulates onto limbs its first digit does not write
         let mut res_big: VecZnxBig<&mut [u8], BE> = self.glwe_external_product_internal(res_dft, &tmp, s, scratch_2);
         for j in 0..(res.rank() + 1).into() {
             self.vec_znx_big_add_small_assign(&mut res_big, j, res.data(), j);
@@ -637,7 +639,8 @@ where
         let res_base2k: usize = res.base2k().into();
         let ggsw_base2k: usize = s.base2k().into();
         self.glwe_sub_assign(res, &a);
-        let (res_dft, scratch_1) = scratch.take_vec_znx_dft(self, (res.rank() + 1).into(), s.size()); // Todo optimise
+        let (mut res_dft, scratch_1) = scratch.take_vec_znx_dft(self, (res.rank() + 1).into(), s.size()); // Todo optimise
+        res_dft.zero(); // for dsize > 2 the product accumulates onto limbs its first digit does not write
         let mut res_big: VecZnxBig<&mut [u8], BE> = self.glwe_external_product_internal(res_dft, res, s, scratch_1);
         for j in 0..(res.rank() + 1).into() {
             self.vec_znx_big_add_small_assign(&mut res_big, j, a.data(), j);
